@@ -48,7 +48,7 @@ def run(c):
         e, s = events[i], byid[owner[i]]
         key = "%s:%s:%s:%s" % (s["mode"], s["kind"], e.get("call", e.get("op")), "after:" + ",".join(s["ops"][:2]))
         seen[key] = seen.get(key, 0) + 1
-        if seen[key] <= 2:
+        if c.want_reproduction(key, seen[key]):
             def still_bad(evs):
                 ev2 = [{k: v for k, v in x.items() if k not in ("sc", "ev", "kind", "variant")} for x in evs]
                 return bool(ev2) and bool(c.validate_traces("ReadOnlyOpsTrace", "ReadOnlyOpsTrace.cfg", ev2))
